@@ -168,6 +168,8 @@ class StatsPart:
                 # chromosome present in file but no row: only legal if the loop stopped before reaching it
                 if given and not opts.get("indexed") and set(given) <= set(order[:order.index(c)]):
                     continue
+                if opts.get("indexed") and c not in order:
+                    continue        # a requested chromosome without any record: an all-zero row is optional
                 ctx.violation("stats:missing-row", "no TSV row for chromosome %s" % c)
                 continue
             row = rows[c]
